@@ -28,11 +28,16 @@ def run(name, check=None):
     d = os.path.join(VERIF, "seeded", name)
     meta = json.load(open(os.path.join(d, "meta.json")))
     check = check or meta["property"]
+    ev = os.path.join(VERIF, "evidence", check + ".json")
+    saved = open(ev).read() if os.path.exists(ev) else None
     subprocess.run(["git", "-C", "/repo", "apply", os.path.join(d, "patch.diff")], check=True)
     try:
         r = subprocess.run([os.path.join(VERIF, "check"), check, "--tier", "quick"], capture_output=True, text=True, cwd=VERIF)
     finally:
         subprocess.run(["git", "-C", "/repo", "checkout", "--", "."], check=True)
+        # the evidence file must describe the unchanged tree, not the seeded one
+        if saved is not None:
+            open(ev, "w").write(saved)
     lines = [l for l in r.stdout.splitlines() if l.startswith("VIOLATION")]
     meta["detected"] = r.returncode == 1 and bool(lines)
     meta["caught_by"] = sorted({l.split("#", 1)[1].strip() if "#" in l else l for l in lines})[:8]
